@@ -523,7 +523,8 @@ impl PoolSubject {
         let outcome = self.classify(&notes, &id);
         let after = self.pooled(w);
         let admitted = outcome == Outcome::Admitted;
-        if (before.contains(&t) && admitted) || (!before.contains(&t) && admitted != after.contains(&t)) {
+        // (an already pooled transaction reported as admitted again is left to the C19 oracle)
+        if !before.contains(&t) && admitted != after.contains(&t) {
             mcx::machinery_failure(&format!(
                 "harness: notification says {outcome:?} for {} but pool membership went {} -> {}",
                 self.tx(t).name,
